@@ -1,7 +1,9 @@
 package saslauthenticate
 
 import (
+	"bytes"
 	"encoding/binary"
+	"fmt"
 	"io"
 
 	"github.com/segmentio/kafka-go/protocol"
@@ -42,13 +44,21 @@ func (r *Request) readResp(read io.Reader) (protocol.Message, error) {
 		return nil, err
 	}
 	respLen := int32(binary.BigEndian.Uint32(lenBuf[:]))
-	data := make([]byte, respLen)
+	if respLen < 0 {
+		return nil, fmt.Errorf("invalid negative sasl response length: %d", respLen)
+	}
 
-	if _, err := io.ReadFull(read, data[:]); err != nil {
+	// The length comes from the network: grow the buffer with the bytes
+	// actually received instead of trusting it for one allocation.
+	data := new(bytes.Buffer)
+	if _, err := io.CopyN(data, read, int64(respLen)); err != nil {
+		if err == io.EOF && data.Len() > 0 {
+			err = io.ErrUnexpectedEOF
+		}
 		return nil, err
 	}
 	return &Response{
-		AuthBytes: data,
+		AuthBytes: data.Bytes(),
 	}, nil
 }
 
